@@ -536,7 +536,7 @@ def template_body_pipeline(rep: C.Report, pid: str = "C04") -> None:
             ]:
                 sol = z3.Solver()
                 sol.set("timeout", 60000)
-                sol.add(z3.InRe(x, lhs), z3.Not(z3.InRe(x, rhs)))
+                sol.add(z3.InRe(x, lhs), z3.Not(z3.InRe(x, rhs)), z3.InRe(x, R.NOMARK))
                 t0 = time.time()
                 r = str(sol.check())
                 ob.solver_s += time.time() - t0
